@@ -46,7 +46,12 @@ class Args:
     def toStringAbbrev(self):
         result = []
         for name, value in self.args.items():
-            value = str(value)
+            try:
+                value = str(value)
+            except Exception:
+                # a value that cannot be rendered must not replace the
+                # error whose stack trace is being written
+                value = "<" + value.type() + ">"
             if len(value) > 50:
                 value = value[0:50] + "... " + value[len(value) - 5:]
             result.append(name + "=" + value)
